@@ -1,3 +1,4 @@
+mod bind;
 mod c01;
 mod c02;
 mod c03;
@@ -32,6 +33,9 @@ fn main() {
         "C02" => c02::run(),
         "C03" => c03::run(),
         "C04" => c04::run(),
+        "C05" => bind::run_c05_c06("C05"),
+        "C06" => bind::run_c05_c06("C06"),
+        "C16" => bind::run_c16(),
         "C07" => c07::run("C07"),
         "C08" => c07::run("C08"),
         "C09" => c09::run(),
